@@ -467,6 +467,30 @@ example : ((Exchange.run { maxBody := 3 } {} [({}, exBig), ({}, exSmall)]).map (
           ((Exchange.run { maxBody := 0 } {} [({}, exBig), ({}, exSmall)]).map (fun x => (x.1, x.2.isOk))) = [(1, true), (1, true)] := by
   decide +kernel
 
+/-- `HTTP/1.1 200 OK`, `Connection: Close` (capital C), `Content-Length: 2`, `hi` -/
+def exCloseCase : Exchange.Srv := { resp := [72, 84, 84, 80, 47, 49, 46, 49, 32, 50, 48, 48, 32, 79, 75, 13, 10,
+  67, 111, 110, 110, 101, 99, 116, 105, 111, 110, 58, 32, 67, 108, 111, 115, 101, 13, 10,
+  67, 111, 110, 116, 101, 110, 116, 45, 76, 101, 110, 103, 116, 104, 58, 32, 50, 13, 10, 13, 10, 104, 105] }
+
+/-- **the connection option `close` of a response is recognised in any letter case** (RFC 7230 §6.1; `/repo` a8cd011):
+whatever the parse state, a `Connection` field whose value is `close` in some letter case sets the close flag and is not
+kept as a generic field.  Before the repair only the bytes `close` did: a response with `Connection: Close` left the
+connection in the pool although the server closes it, and the next request that is not safe to repeat failed with
+"connection is closed by peer while being in the connection pool" (reproduced on the real client). -/
+theorem response_close_option_any_case (dn : Bool) (st : RespRead.HState) (v : Bytes)
+    (h : ciEq v Gen.Str.strClose = true) :
+    (RespRead.applyHeader dn st Gen.Str.strConnection v).head.connClose = true ∧
+    (RespRead.applyHeader dn st Gen.Str.strConnection v).head.h = st.head.h := by
+  rw [H1.RT.applyHeader_kind dn st Gen.Str.strConnection v (by decide), H1.RT.kind_conn]
+  simp [h]
+
+/-- … and on the pool: after an exchange answered with `Connection: Close` the next exchange dials again (2 dials);
+with keep-alive answers one connection serves both -/
+theorem close_case_response_not_pooled :
+    ((Exchange.run {} {} [({}, exCloseCase), ({}, exSmall)]).map (fun x => (x.1, x.2.isOk))) = [(1, true), (2, true)] ∧
+    ((Exchange.run {} {} [({}, exSmall), ({}, exSmall)]).map (fun x => (x.1, x.2.isOk))) = [(1, true), (1, true)] := by
+  decide +kernel
+
 theorem exchange_returns_own_response (cfg : Exchange.Cfg) (st : Exchange.St) (rq : Exchange.Req) (sv : Exchange.Srv)
     (hc : Exchange.Clean st)
     (h : rq.retryable = true ∨ (sv.resp ≠ [] ∧ ∀ c, st.idle = some c → c.peerClosed = false)) :
